@@ -81,14 +81,21 @@ CHECKS = {
    ref="DESIGN.md section 5 C10"),
  "C13": dict(engine="unbounded+locks+group",
    text="(a) Lean 4 proofs over all interleavings of any number of producers (Put split into locked append and signal) and one consumer of unbounded.Channel: no lost "
-        "wakeup, exactly-once in lock order, per-producer order, everything delivered at quiescence; (b) generic theorem acyclic_order_no_deadlock + bridge from an edge "
+        "wakeup, exactly-once in lock order, per-producer order, everything delivered at quiescence, and the CONSUMER side tied to the source: every use site of an "
+        "unbounded.Channel outside its package is regenerated by the extractor (Generated/ChanUse.lean: put / receive-then-Get pair / new / other, fail closed) and the "
+        "side conditions `chanUseOK` (no `other`), `chanOneConsumer` (one receive-then-Get site per channel) and `chanImplOK` (Ch has capacity 1 and is only sent to "
+        "without blocking) are decided in the kernel on every run, with the bridge theorems model_consumer_is_recvGet / get_enabled_iff / recv_enabled_iff / "
+        "drain_reaches_stuck_state; an offending site is reported by the locks engine with its position, and the real clientLoop is stressed over a websocket "
+        "(loopstress: stall detection on the observed queue); (b) generic theorem acyclic_order_no_deadlock + bridge from an edge "
         "list, side condition `acyclic Generated.lockEdges` re-decided in the kernel on lock-order facts regenerated from the source (go/ast + go/types extractor) on "
         "every run; (c) generic theorem guarded_no_race + certificate check on regenerated access/call facts (Group, groups, Channel, Cache, Map, WhipClient fields "
         "with their mutexes).  On the current tree both side conditions hold; cycles or unguarded accesses are reported as oracle events with the witness, with "
         "deterministic deadlock replays (whipdl, shutdowndl) and a -race stress in the thorough tier whose reports must lie within the predicted functions",
    note=TB + "The fact extractor (claims to list every acquire/call/guarded access; fails closed to `unknown`; cross-validated by the -race stress); type-level lock naming; "
-        "sync.Mutex/channel semantics; fairness assumed for 'eventually seen'.",
-   technique="Lean 4 proofs (channel protocol; generic lock-order and guard theorems) + regenerated static facts decided in the kernel + forced schedules and -race stress",
+        "sync.Mutex/channel semantics; fairness assumed for 'eventually seen'. Channel use sites are recognised lexically (receive and Get adjacent in one function; a "
+        "helper that Gets, or `.Ch` hoisted into a local, is `other` and fails the build: fail closed); one goroutine per consumer site and per channel value is trusted; "
+        "readLoop polls its queue once per RTP packet (recorded as wait=poll, outside the model).",
+   technique="Lean 4 proofs (channel protocol; generic lock-order and guard theorems) + regenerated static facts (lock order, guarded accesses, channel use sites) decided in the kernel + forced schedules and -race stress + real client loop stress with a liveness oracle",
    ref="DESIGN.md section 5 C13, Appendix C"),
 "C11": dict(engine="sig+whip",
    text="Lean 4 theorems over an executable model of rtpconn/webclient.go's message handler (handleClientMessage, handleAction, the join/leave path, token requests) "
